@@ -471,7 +471,40 @@ func (t *vfTree) step() bool {
 				return false // already reported by judge
 			}
 		}
-	case k < 24: // CREATE (only on names the model does not hold; C03 covers existing names)
+	case k < 24: // CREATE (on names the model does not hold; C03 covers existing names - except the one case below)
+		if childExists && depthOK && unamb && t.forced == nil {
+			// UNCHECKED CREATE with an explicit size over an existing regular file ("open with
+			// O_TRUNC"): the file is resized, and every cache setting reports the new size at once
+			if e, ok := t.model.Peek(child); ok && e.Kind == refs.KFile && t.rng.Intn(2) == 0 {
+				proc = "CREATE"
+				size := []uint64{0, 3, 40}[t.rng.Intn(3)]
+				t.ops = append(t.ops, fmt.Sprintf("CREATE %s %q how=0 size=%d (existing file)", h.path, name, size))
+				vals := make([]uint64, K)
+				if !run(func(i int) (*rfc.Res, error) {
+					return t.cl[i].create(h.val[i], name, 0, xdrw.Sattr3{Size: xdrw.U64p(size)}, [8]byte{})
+				}, func(i int, r *rfc.Res) string {
+					if r.Status == 0 {
+						vals[i] = vfFH(r.FH)
+						t.obsPost(i, proc, "obj", child, r.Obj)
+					}
+					t.obsPost(i, proc, "dir-wcc", h.path, r.Wcc.Post)
+					return attrSum(r.Obj)
+				}) {
+					return false
+				}
+				if outs[0].st == 0 {
+					t.model.Truncate(child, int64(size))
+				}
+				judge(true, true)
+				if !checkTrees() {
+					return false
+				}
+				if outs[0].st == 0 && vals[0] != 0 {
+					t.newHandle(child, vals)
+				}
+				return true
+			}
+		}
 		if childExists || !depthOK {
 			return true
 		}
